@@ -130,11 +130,13 @@ def gen(seed, tier):
     # --- 2. small scope: all pairs of leaf fibers for dot / elementwise / accumulate-into-vector
     vals = [0, 1, -1]
     fibs = list(H.all_leaf_fibers(3, vals))
-    for a in fibs:
-        for b in fibs:
-            for style in STYLES:
-                yield mk_case(1, [[0], [0]], [], [0], [], style, 3, [a, b], "dot-exh")
-                yield mk_case(1, [[0], [0]], [0], [0], [], style, 3, [a, b], "ew-exh")
+    for ia, a in enumerate(fibs):
+        for ib, b in enumerate(fibs):
+            for si, style in enumerate(STYLES):
+                if not quick or (ia + ib + si) % 2 == 0:
+                    yield mk_case(1, [[0], [0]], [], [0], [], style, 3, [a, b], "dot-exh")
+                if not quick or (ia + ib + si) % 4 == 0:
+                    yield mk_case(1, [[0], [0]], [0], [0], [], style, 3, [a, b], "ew-exh")
     # cancellation to zero inside a reduction that is outer to the output loop: Z_m = sum_k A_km
     cols = list(H.all_leaf_fibers(2, [0, 1, -1]))
     for r0 in cols:
